@@ -37,9 +37,9 @@ func init() {
 		},
 		N: func(t string) int {
 			if t == "thorough" {
-				return 150000
+				return 600000
 			}
-			return 4000
+			return 20000
 		},
 		Batch: 2000,
 		Init:  per.SelfTest,
